@@ -217,11 +217,34 @@ class Replayer:
             df = tbl >> R.export(R.pdt.Polars())
             self.stats["exports"] += 1
         except Exception as e:  # noqa: BLE001
+            if bk != "polars" and exc_class(e) == "NotSupportedError":
+                # the documented refusal of a SQL dialect; the implementation is looked up when the query is compiled
+                side.alive, side.why = False, "not-supported"
+                node.events.append(dict(ev="notsupported", backend=bk, step=k))
+                side.frames.append(None)
+                return None
             self.fail(node, beh, k, bk, "export-error", f"{exc_class(e)}: {e}", exc=exc_class(e))
             side.frames.append(None)
             return None
         side.frames.append(df)
         names = list(df.columns)
+        if self.opts.get("printing") and bk == "polars":
+            # C11: printing shows the exported frame (all of it up to 10 rows: polars' "shape: (rows, columns)" line and header)
+            try:
+                txt = str(tbl)
+                html = tbl._repr_html_()
+                self.stats["printed"] = self.stats.get("printed", 0) + 1
+                shape = f"shape: ({min(df.height, 10)}, {df.width})" if df.height <= 10 else None
+                if "failed" in txt.split("\n", 2)[1] if txt.count("\n") >= 1 else False:
+                    self.fail(node, beh, k, bk, "meta", f"printing the table: {txt[:200]!r}")
+                elif shape is not None and names and shape not in txt:
+                    self.fail(node, beh, k, bk, "meta", f"printing the table shows {txt[:160]!r}, the exported frame has {shape} and columns {names}")
+                elif names and not all(n in txt for n in names):
+                    self.fail(node, beh, k, bk, "meta", f"the printed table does not show the columns {names}: {txt[:200]!r}")
+                if "export failed" in html or (names and f"shape: ({df.height}, {df.width})" not in html):
+                    self.fail(node, beh, k, bk, "meta", f"_repr_html_: {html[:200]!r} for a frame of shape ({df.height}, {df.width})")
+            except Exception as e:  # noqa: BLE001
+                self.fail(node, beh, k, bk, "meta", f"printing the table raised {exc_class(e)}: {e}")
         if meta_cols is not None:
             if not (meta_cols == names and meta_iter == names and meta_len == len(names) and sorted(meta_dir) == sorted(names)
                     and all(n in tbl for n in names)):
@@ -488,12 +511,23 @@ class Replayer:
                         self.stats["expr_export_two_refs"] = self.stats.get("expr_export_two_refs", 0) + 1
                         if len(got) != len(want) or not self.rows_equal(want, got, obs, bk, single=idx):
                             self.fail(node, beh, k, bk, "target", f"ColExpr.export of (<earlier reference to {n}> + {n}): {len(got)} values {got[:4]} vs {len(want)} rows {want[:4]}")
+                        # ... also when the latest table is mentioned only as an `arrange=` key of a window function
+                        ser = old.shift(1, arrange=tbl[n]).export(R.pdt.Polars())
+                        if len(ser) != df.height:
+                            self.fail(node, beh, k, bk, "target", f"ColExpr.export of <earlier reference to {n}>.shift(1, arrange={n}): {len(ser)} values, the table has {df.height} rows")
+                        else:
+                            keys = df[n].to_list()
+                            if None not in keys and len(set(keys)) == len(keys):
+                                want2 = (tbl >> R.mutate(**{"x__": old.shift(1, arrange=tbl[n])}) >> R.export(R.pdt.Polars()))["x__"].to_list()
+                                if sorted(map(repr, want2)) != sorted(map(repr, ser.to_list())):
+                                    self.fail(node, beh, k, bk, "target", f"ColExpr.export of <earlier reference to {n}>.shift(1, arrange={n}): {ser.to_list()[:5]} vs mutate {want2[:5]}")
                     except ValueError as e:
                         # the documented refusal: no table of the expression contains the others (e.g. the reference predates a collect())
                         if "no common ancestor" not in str(e):
                             self.fail(node, beh, k, bk, "target", f"ColExpr.export of (<earlier reference to {n}> + {n}) raised {exc_class(e)}: {e}")
                     except Exception as e:  # noqa: BLE001
-                        self.fail(node, beh, k, bk, "target", f"ColExpr.export of (<earlier reference to {n}> + {n}) raised {exc_class(e)}: {e}")
+                        if not (bk != "polars" and exc_class(e) in ("SubqueryError", "NotSupportedError")):     # documented refusals on SQL
+                            self.fail(node, beh, k, bk, "target", f"ColExpr.export of an expression over <earlier reference to {n}> and {n} raised {exc_class(e)}: {e}")
                 return
 
     def order_cls(self, obs, bk, n):
